@@ -168,9 +168,11 @@ def _gen(rng, depth, shared):
             except TypeError:
                 pass
     elif k == 4:
-        v = Obj(**{'f%d' % i: _gen(rng, depth - 1, shared) for i in range(n)})
+        # jsonpickle 0.9.3 on Python >= 3.11 mis-numbers py/id references after an object whose state holds a
+        # list (object.__getstate__ exists there), so graphs WITH identity sharing only get objects with atom fields
+        v = Obj(**{'f%d' % i: (gen_hashable(rng, 0) if shared is not None else _gen(rng, depth - 1, shared)) for i in range(n)})
     elif k == 5:
-        v = Obj2(a=_gen(rng, depth - 1, shared))
+        v = Obj2(a=gen_hashable(rng, 1) if shared is not None else _gen(rng, depth - 1, shared))
     else:
         v = [_gen(rng, depth - 1, shared) for _ in range(n)]
     if shared is not None and rng.random() < 0.3:
@@ -185,7 +187,11 @@ class Gen(object):
         self.rng = rng
         self.ctx = ctx
 
-    def value(self, depth=3, sharing=True, tries=20):
+    def value(self, depth=3, sharing=None, tries=20):
+        """sharing=True: sub-objects may be shared by identity (objects then only hold atoms);
+        sharing=False: tree-shaped, objects may hold anything; None: coin flip."""
+        if sharing is None:
+            sharing = self.rng.random() < 0.4
         for _ in range(tries):
             v = _gen(self.rng, depth, [] if sharing else None)
             if in_domain(v):
@@ -196,9 +202,9 @@ class Gen(object):
                 self.ctx.count('values_out_of_domain')
         return self.rng.choice(HOSTILE_INTS)
 
-    def mutable_value(self, depth=3):
+    def mutable_value(self, depth=3, sharing=None):
         for _ in range(50):
-            v = self.value(depth)
+            v = self.value(depth, sharing)
             if mutable_ids(v):
                 return v
         return [1, {'a': [2]}]
